@@ -566,9 +566,10 @@ def oracle(ctx, case, outcome, res, cnt, type_names):
                 sub_cut = [s for s in strips if name.find(s) != len(name) - len(s)]
                 if sub_cut:
                     key = 'maintransformer._setup_method/_get_constructor_name:str.find(subsymbol)-leftmost-occurrence'
-                elif tag == 'constructor' and 'constructor' in ann.get(name, []) and not any(
-                        s.startswith(u + '_') for s in strips
-                        for u in [parent.get(q('c:symbol-prefix')) or '\0']):
+                elif tag == 'constructor' and 'constructor' in ann.get(name, []) and any(
+                        st != got and st.endswith(got) and not type_prefix_strips(st, parent) for st in strips):
+                    # the name is a truncated tail of a namespace-stripped symbol that does NOT lead with the
+                    # type prefix (with several symbol prefixes another stripping may well lead with it)
                     key = 'maintransformer._get_constructor_name:annotated-constructor-uscored_prefix-in-symbol'
                 bad(key, '%s %s of %s is named %r; stripping namespace and type prefix gives %r'
                     % (tag, name, parent.get('name'), got, sorted(ok_names)))
@@ -716,9 +717,14 @@ def gen_ident(rng):
     return s
 
 
-def rec_decls(cname, form, union=False, fields=True):
+FUNC_PTR = P({'k': 'func', 'ret': T('void'), 'params': []})
+
+
+def rec_decls(cname, form, union=False, fields=True, extra=()):
+    """`extra`: further members — function pointers (anonymous callbacks named after the field, which the
+    writer emits WITHOUT c:type) and anonymous nested compounds; none of them is a declared C symbol"""
     k = 'union' if union else 'struct'
-    body = [{'name': 'x', 'type': T('int')}] if fields else []
+    body = ([{'name': 'x', 'type': T('int')}] if fields else []) + list(extra)
     tag = '_' + cname
     if form == 'typedef_first':
         return [{'d': 'typedef', 'name': cname, 'type': {'k': k, 'n': tag}}, {'d': k, 'name': tag, 'fields': body}]
@@ -815,7 +821,14 @@ def gen_case(rng):
             reg = rng.choice(['class', 'class', 'class', 'boxed', 'interface'])
             if reg in ('class', 'interface'):
                 union = False
-        decls.extend(rec_decls(cname, form, union, fields=rng.random() < 0.8))
+        extra = []
+        if rng.random() < 0.25:
+            # a member named like a top-level callback / an unprefixed name must stay an anonymous callback
+            extra.append({'name': rng.choice(['cb', 'notify', idpre + 'Func', 'OtherFunc']), 'type': FUNC_PTR})
+        if rng.random() < 0.1:
+            extra.append({'name': 'u', 'type': {'k': rng.choice(['struct', 'union']), 'n': None, 'fields': [
+                {'name': 'i', 'type': T('int')}, {'name': 'cb', 'type': FUNC_PTR}]}})
+        decls.extend(rec_decls(cname, form, union, fields=rng.random() < 0.8, extra=extra))
         if rng.random() < 0.08:
             decls.append({'d': 'typedef', 'name': cname + 'Alt', 'type': {'k': 'union' if union else 'struct',
                                                                         'n': '_' + cname}})
@@ -911,6 +924,9 @@ def gen_case(rng):
         lambda: {'d': 'typedef', 'name': '%s_cb_func' % sp, 'type': P({'k': 'func', 'ret': T('void'), 'params': []})},
         lambda: {'d': 'typedef', 'name': idpre + 'Mixed_cb', 'type': P({'k': 'func', 'ret': T('void'), 'params': []})},
         lambda: {'d': 'typedef', 'name': 'GForeignFunc', 'type': P({'k': 'func', 'ret': T('void'), 'params': []})},
+        # function type (not pointer) typedefs are callbacks too
+        lambda: {'d': 'typedef', 'name': idpre + 'PlainFunc', 'type': {'k': 'func', 'ret': T('void'), 'params': []}},
+        lambda: {'d': 'typedef', 'name': 'OtherFunc', 'type': P({'k': 'func', 'ret': T('void'), 'params': []})},
         lambda: {'d': 'typedef', 'name': idpre + 'Int', 'type': T('int')},
         lambda: {'d': 'typedef', 'name': idpre + 'Handle', 'type': P(T('void'))},
         lambda: {'d': 'typedef', 'name': 'OtherInt', 'type': T('int')},
@@ -1383,6 +1399,11 @@ def run(ctx):
         cnt.hit('cfg:includes=%d' % len(case['includes']))
         cnt.hit('cfg:accept' if case.get('accept_unprefixed') else 'cfg:strict')
         cnt.hit('cfg:dump' if case.get('dump') is not None else 'cfg:nodump')
+        members = [f for d in case['decls'] for f in (d.get('fields') or (d.get('type') or {}).get('fields') or [])]
+        if any(f['type'].get('k') == 'ptr' and f['type']['to'].get('k') == 'func' for f in members):
+            cnt.hit('cfg:callback-member')
+        if any(f['type'].get('k') in ('struct', 'union') for f in members):
+            cnt.hit('cfg:anonymous-compound-member')
         cnt.case(['p', case], nontrivial=nfun > 0 and verdict not in (None, 'outside:scanner-refused'))
         if not agree:
             disagree.append(case)
@@ -1415,7 +1436,8 @@ def run(ctx):
                 'underscores / non-ASCII; prefix configurations (0-3 identifier and symbol prefixes per namespace, '
                 'empty prefixes, prefixes of each other, 0-3 includes, accept-unprefixed) x names built around them; '
                 'underscored strings x key sets for the type splitter. pipeline level: declaration sets (records in all '
-                'typedef/tag orders, unions, classes/interfaces/boxed via a minimal dump, look-alike type prefixes, '
+                'typedef/tag orders, function-pointer and anonymous-compound members, unions, classes/interfaces/boxed '
+                'via a minimal dump, look-alike type prefixes, '
                 'method/constructor/static look-alikes, annotated functions, foreign / underscore / upper-case symbols, '
                 'constants, enums, callbacks, aliases) x prefix configurations (1-3 identifier prefixes, explicit or '
                 'default symbol prefixes with/without trailing "_", includes whose prefix is a prefix of ours, '
